@@ -209,9 +209,85 @@ fn fault_history(seed: u64, idx: usize, out: &mut impl Write) {
     writeln!(out, "{}", json!({"ev":"end","panic":panicked.map(|(p, m)| json!({"peer":p,"msg":m}))})).unwrap();
 }
 
+/// connection life cycles (C15): start hosting / connect / remove transports / reconnect, with the
+/// frames of host and client interleaved arbitrarily and worlds of any size
+fn conn_history(seed: u64, idx: usize, thorough: bool, out: &mut impl Write) {
+    let mut rng = Rng::new(seed.wrapping_mul(9_000_011) ^ (idx as u64) ^ 0xC0);
+    let nclients: u32 = if rng.chance(1, 3) { 2 } else { 1 };
+    let mut c = Ctx { s: Session::new(rng.chance(1, 5), PeerCfg::default()), rng: rng.fork(), next_h: 0, live: vec![], nclients };
+    for _ in 0..nclients {
+        c.s.add_client(PeerCfg::default(), rng.below(3));
+    }
+    writeln!(out, "{}", json!({"ev":"history","family":"conn","id":format!("conn-{}-{}", seed, idx),"clients":nclients,"v6":false})).unwrap();
+    let types: serde_json::Map<String, serde_json::Value> =
+        ALL_TYS.iter().map(|t| (t.name().to_string(), json!(t.type_path()))).collect();
+    c.s.trace.push(json!({"ev":"types","map":types,"registered":PeerCfg::default().registered.iter().map(|t| t.name()).collect::<Vec<_>>()}));
+    c.s.describe_peers();
+    // some prior content on the host so that the snapshot is not empty (sometimes large: many frames)
+    let n0 = if thorough && rng.chance(1, 4) { rng.range(200, 900) } else { rng.below(12) };
+    for k in 0..n0 {
+        let h = c.fresh();
+        let comps = if k % 2 == 0 { vec![CVal::new(Ty::A, k as i64), CVal::new(Ty::Name, k as i64)] } else { vec![] };
+        c.s.spawn(0, h, true, &comps, None);
+    }
+    // frames before anything is started
+    for _ in 0..rng.below(3) { c.s.step(0); c.s.step(1); }
+    c.s.start_host();
+    let steps = if thorough { rng.range(30, 90) } else { rng.range(20, 50) };
+    let mut started: Vec<bool> = vec![false; (nclients + 1) as usize];
+    for _ in 0..steps {
+        match rng.below(14) {
+            0 => {
+                let cl = rng.range(1, nclients as usize) as u32;
+                if !started[cl as usize] {
+                    c.s.connect(cl);
+                    started[cl as usize] = true;
+                }
+            }
+            1 => {
+                // the application removes the client's transport (at any moment: connecting or connected)
+                let cl = rng.range(1, nclients as usize) as u32;
+                if started[cl as usize] && c.s.peers[cl as usize].app.world().contains_resource::<bevy_renet::renet::transport::NetcodeClientTransport>() {
+                    c.s.disconnect(cl);
+                }
+            }
+            2 => {
+                // reconnect
+                let cl = rng.range(1, nclients as usize) as u32;
+                if started[cl as usize] && !c.s.peers[cl as usize].app.world().contains_resource::<bevy_renet::renet::transport::NetcodeClientTransport>() {
+                    c.s.connect(cl);
+                }
+            }
+            3 => {
+                if rng.chance(1, 3) {
+                    let h = c.fresh();
+                    c.s.spawn(0, h, true, &[CVal::new(Ty::A, 5)], None);
+                }
+            }
+            _ => {}
+        }
+        // arbitrary interleaving of the peers' frames
+        let p = rng.below((nclients + 1) as usize) as u32;
+        c.s.step(p);
+        if rng.chance(1, 2) {
+            let q = rng.below((nclients + 1) as usize) as u32;
+            c.s.step(q);
+        }
+    }
+    c.lockstep(12);
+    let d = c.drain(60);
+    c.s.trace.push(json!({"ev":"drain","quiescent":d.0,"rounds":d.1,"final":true}));
+    let panicked = c.s.panicked.clone();
+    c.s.emit(out);
+    writeln!(out, "{}", json!({"ev":"end","panic":panicked.map(|(p, m)| json!({"peer":p,"msg":m}))})).unwrap();
+}
+
 fn history(family: &str, seed: u64, idx: usize, thorough: bool, out: &mut impl Write) {
     if family == "fault" {
         return fault_history(seed, idx, out);
+    }
+    if family == "conn" {
+        return conn_history(seed, idx, thorough, out);
     }
     let mut rng = Rng::new(seed.wrapping_mul(1_000_003) ^ (idx as u64) ^ 0x5E55);
     let nclients = match rng.below(10) {
